@@ -52,7 +52,7 @@ re-run any of them with `python3 tools/seedtest.py run <name> [check ids]`.
 {own_caught} by the check of the property they were written against. Where a change was first
 missed, the generator or oracle was strengthened (never the other way round) and the change re-run —
 so these totals are in-sample; the figures to quote are the FIRST-PASS ones, before any strengthening: round 4
-22 of 24, round 5 15 of 18 reported (rounds 1–3: every first-pass miss is listed below; about nine in ten were
+22 of 24, round 5 15 of 18, round 6 32 of 40 reported (rounds 1–3: every first-pass miss is listed below; about nine in ten were
 reported at once). About one in five of the reported changes is reported through a broken tie or call-order fact
 only (`no-failing-input-found`), not with an input on which the oracle sees the property fail:
 
@@ -122,6 +122,31 @@ same lines, they keep their last honest result.
   partition heals and knows the high QC from timeout messages only (corpus/clusterlive/03). C05-r5m1 (the timer is
   restarted before the new view is entered, so it never fires there) is reported through the call-order facts only:
   real timers are outside what the harness runs.
+* Round 6 (fourth day, /repo at a284fef resp. 3b7dc98; 40 changes, two per property, every builder told which
+  functions earlier rounds had touched and to stay away from them): 40 confirmed; at first pass 32 were reported by
+  some quick-tier check, seven were reported by none and led to new scenarios, and one (C06-r6m2: `ExecCommand`
+  answers at once for a command below the executed mark — and returns WITHOUT releasing the server lock) made the
+  `clientio` harness wait for ever for that release; the harness now releases the lock itself when the handler has
+  returned (as gorums does), a driver that hangs is given up after 240 s and only its first six scripts are re-run
+  alone. After that all 40 are reported.
+  C03-r6m2 (`serviceImpl.Propose` attributes a proposal to the proposer named IN the block instead of the peer that
+  delivered it, so a non-leader can speak for the leader): wire deliveries always came from the block's proposer; a
+  share of the wire proposals is now relayed by another peer, also in C03's runs. C16-r6m1 (round-robin remembers the
+  replica count of its first use): every query built a fresh object; `rrgrow` asks ONE object while the configuration
+  has k of n replicas and again when it is complete. C14-r6m1 (`AddEvent` puts an evicted ticker start event back and
+  hides the eviction): tickers were outside the event-loop scripts; `ticker` now queues `AddTicker`'s start event
+  (shown as `T<id>`; the model treats it as an event nobody is registered for). C13-r6m1 (`Get` re-reads the store
+  after a failed fetch only when the fetch was CANCELLED — different only when a second `Get` of the same hash
+  overlaps the fetch and takes the cancel function with it): `fetch-overlap` runs a complete second `Get` inside the
+  scripted fetch (the store lock is not held there). C17-r6m1 (`heightOf` by a floating-point logarithm: one level
+  off at the first position of a level, from bf = 10 with 112 replicas on): whole configurations at the level starts
+  for bf 7..16 up to 320 replicas. C19-r6m1 (`extend` re-slices into spare capacity instead of appending zero bytes):
+  the driver hands `BitfieldFromBytes` a prefix of a larger buffer whose other bytes are 0xff. C12-r6m1
+  (`AggregateQCFromProto` decodes one QC per (view, hash) and reuses it): two different certificates for ONE block,
+  attested by two replicas of one aggregate QC. Reported by other checks than their own only: C01-r6m1, C07-r6m1/m2,
+  C08-r6m1, C11-r6m1, C20-r6m1/m2 (signature-cache and quorum-size changes: C02 / C11 / C08 / C20), C13-r6m2,
+  C16-r6m2, C10-r6m1 (a Kauri contribution before the first proposal dereferences a nil block: the `kauri` family,
+  which now also runs under C10). One builder's side remark became repair 3b7dc98 (§6).
 * C08-m2 (`signedBy` accepts multi-signer view signatures) was missed: the timeout injection got
   a `multi-viewsig` kind (the sender's genuine signature combined with another replica's).
 * C10-m3 (the RequestBlock handler converts the hash field with a slice-to-array conversion that
